@@ -19,7 +19,7 @@ def cases(seed, tier):
     out = []
     for k in range(n):
         r = random.Random(sch.np_seed(f"c12.{k}"))
-        c = wp.std_case(r, sch.np_seed(f"s{k}"), kinds=("gauss", "bimodal", "expedge", "hole", "corr"), scenarios=("plain", "plain", "crash_resume", "rerun", "resume_final", "load_only", "extra_samples"))
+        c = wp.std_case(r, sch.np_seed(f"s{k}"), kinds=("gauss", "bimodal", "expedge", "hole", "corr"), scenarios=("plain", "plain", "crash_resume", "rerun", "resume_final", "load_only", "extra_samples", "like_raise"))
         out.append(c)
     return out
 
